@@ -276,6 +276,7 @@ def native_check(c, kwargs, extra_env=None, universe=None):
     uni = universe or {}
     env["forall_ref"] = lambda cls, f: all(f(x) for x in uni.get(cls, []))
     env["forall_int"] = _forall_int
+    env["exists_int"] = lambda f: any(f(i) for i in range(-2, 12))
     roots = [v for v in kwargs.values() if _is_model_obj(v)]
     for lst in uni.values():
         roots.extend(lst)
